@@ -765,11 +765,20 @@ fn decompress_udp(
         &iphc_repr.dst_addr,
         &ChecksumCapabilities::ignored(),
     )?;
-    if udp_repr.header_len() + payload.len() > buffer.len() {
+    // NOTE: the decompressed UDP header is 8 octets, whatever the size of the NHC header.
+    if udp_repr.0.header_len() + payload.len() > buffer.len() {
         return Err(Error);
     }
     let udp_payload_len = if let Some(total_len) = total_len {
-        total_len - *payload_len - 8
+        // The datagram is fragmented: its size comes from the fragment header, which
+        // must leave room for the headers and for what this first fragment carries.
+        let len = total_len
+            .checked_sub(*payload_len + udp_repr.0.header_len())
+            .ok_or(Error)?;
+        if payload.len() > len {
+            return Err(Error);
+        }
+        len
     } else {
         payload.len()
     };
